@@ -233,6 +233,40 @@ inline std::string parse_emitted(const std::string& text, EmittedData& em) {
     return "";
 }
 
+// The emitted object, laid out as the emitted struct declaration says, in one
+// heap block of exactly its size (AddressSanitizer guards both ends), and the
+// view of it decode_dispatch_data<Policy>(Data&) works on: it only uses
+// init.encoded.slots, init.encoded.vtbls, init.vtbls, init.dtbls as pointers.
+struct DecodeView {
+    struct {
+        std::uint16_t* slots;
+        std::uint16_t* vtbls;
+    } encoded;
+    std::uintptr_t* vtbls;
+    std::uintptr_t* dtbls;
+};
+
+inline unsigned char*
+layout_emitted(const EmittedData& em, DecodeView& d, std::size_t& size) {
+    const std::size_t enc_bytes = 2 * (em.headroom + em.nslots + em.nvtbls);
+    std::size_t usize = enc_bytes > 8 * em.ndecoded ? enc_bytes : 8 * em.ndecoded;
+    usize = (usize + 7) / 8 * 8;
+    size = usize + 8 * em.ndtbls;
+    auto block = (unsigned char*)std::calloc(1, size ? size : 1);
+    auto enc = reinterpret_cast<std::uint16_t*>(block);
+    d.encoded.slots = enc + em.headroom;
+    d.encoded.vtbls = enc + em.headroom + em.nslots;
+    d.vtbls = reinterpret_cast<std::uintptr_t*>(block);
+    d.dtbls = reinterpret_cast<std::uintptr_t*>(block + usize);
+    for (std::size_t i = 0; i < em.slots.size(); ++i)
+        d.encoded.slots[i] = em.slots[i];
+    for (std::size_t i = 0; i < em.vtbls.size(); ++i)
+        d.encoded.vtbls[i] = em.vtbls[i];
+    for (std::size_t i = 0; i < em.dtbls.size(); ++i)
+        d.dtbls[i] = em.dtbls[i];
+    return block;
+}
+
 // ---------------------------------------------------------------------------
 // write_static_offsets: one line per method,
 //   template<> struct yorel::yomm2::detail::static_offsets<NAME> {static
